@@ -158,6 +158,17 @@ def run(ctx):
         lits = {k[1] for k in table if k[1]}
         extra = sorted(lits - set(cmds))
         ctx.check(not extra, "D1-CMD-TABLE", EFB, "no-extra-commands", "no command outside the spec", "from_bytes accepts commands outside the spec: %s" % extra, fn_span(body))
+        # the '@' test must see the line's first byte: the command word may only be derived by a conversion that keeps ASCII intact
+        ats = [c.term for p in ret_paths(paths) for c in p.conds() if is_call(c.term, "str>::starts_with") and const_char(call_args(c.term)[1]) == "@"]
+        okat = bool(ats)
+        for t in ats[:1]:
+            subj = call_args(t)[0]
+            faithful = mentions(subj, lambda s: is_call(s, "String::from_utf8_lossy")) and mentions(subj, lambda s: s == ("param", 1))
+            partial = mentions(subj, lambda s: is_call(s, "str::from_utf8", "String::from_utf8", "Result::unwrap_or_default", "Result::unwrap_or", "Result::ok", "OsStr::to_str"))
+            okat = faithful and not partial
+        bytetest = [c.term for p in ret_paths(paths) for c in p.conds() if isinstance(c.term, tuple) and c.term[0] == "binop" and c.term[1] in ("Eq", "Ne") and const_int(c.term[3]) == 64]
+        ctx.check(okat or bool(bytetest), "D1-AT-TEST", EFB, "command-test-on-line-start", "'@' is tested on a lossless-for-ASCII image of the line start",
+                  "the leading-'@' test is made on a command word that is not a lossless-for-ASCII image of the line (e.g. a failed UTF-8 conversion replaced by \"\"): a command line with a non-UTF-8 byte in its first word is then taken for a file", fn_span(body))
         # unknown command and plain file
         unk = [p for k, ps in table.items() if k[0] and k[1] is None for p in ps]
         ctx.check(bool(unk) and all(outcome(p)[:2] == ("Err", "UnsupportedCommand") for p in unk), "D1-UNKNOWN", EFB, "unknown-command",
